@@ -16,6 +16,13 @@ EXTENDS OpGraph, Json, IOUtils
 
 Data == JsonDeserialize(IOEnv.TRACE_FILE)
 Tr == Data.traces
+(* Two levels (harness/parallel.py).  Strict: the post-state of every rewrite equals the post-state computed by the operators   *)
+(* of OpGraph.tla (same ids, same merge, same renaming order), simplify merges only mergeable pairs and stops at a fixed       *)
+(* point.  C16 itself demands less: the denoted operator follows the contract of the call (unchanged / sum / reversed), the     *)
+(* graph passes its consistency check, simplification does not grow, the other graph of an addition is untouched.  With         *)
+(* Strict = FALSE (pass 2) the internal events (smerge, add_union, depths) are removed by the harness and the actions below      *)
+(* take the logged graph as the new state and evaluate only those clauses.  Strict-only diagnostics start with "spec: ".        *)
+Strict == IF "strict" \in DOMAIN Data THEN Data.strict ELSE TRUE
 
 VARIABLES tid, l, H, mode
 tvars == <<tid, l, G, den0, nops, last, H, mode>>
@@ -45,7 +52,7 @@ TInit == /\ HasRec /\ Rec.ev = "init" /\ mode = "none"
          /\ H' = NoGraph /\ mode' = "idle"
          /\ Advance
 
-TMerge == /\ HasRec /\ Rec.ev = "merge" /\ mode = "idle"
+TMerge == /\ Strict /\ HasRec /\ Rec.ev = "merge" /\ mode = "idle"
           /\ MergeAct(Rec.e1, Rec.e2, Rec.dir)
           /\ LoggedOK(G')
           /\ Den(G') = den0'
@@ -55,7 +62,7 @@ TSimplifyBegin == /\ HasRec /\ Rec.ev = "simplify_begin" /\ mode = "idle"
                   /\ mode' = "simplify" /\ UNCHANGED <<G, den0, H>> /\ Advance
 
 (* one merge performed by _simplify_step: must be one of the pairs the scan may pick *)
-TSMerge == /\ HasRec /\ Rec.ev = "smerge" /\ mode \in {"simplify", "addsimplify"}
+TSMerge == /\ Strict /\ HasRec /\ Rec.ev = "smerge" /\ mode \in {"simplify", "addsimplify"}
            /\ SimplifyMergeAct(Rec.e1, Rec.e2, Rec.dir)
            /\ LoggedOK(G')
            /\ Den(G') = den0'
@@ -63,35 +70,35 @@ TSMerge == /\ HasRec /\ Rec.ev = "smerge" /\ mode \in {"simplify", "addsimplify"
            /\ \A lev \in 0..GraphLength(G) : Width(G', lev) <= Width(G, lev)
            /\ UNCHANGED <<H, mode>> /\ Advance
 
-TSimplifyEnd == /\ HasRec /\ Rec.ev = "simplify_end" /\ mode = "simplify"
+TSimplifyEnd == /\ Strict /\ HasRec /\ Rec.ev = "simplify_end" /\ mode = "simplify"
                 /\ Simplified(G)              \* fixed point: no mergeable pair in either direction
                 /\ LoggedOK(G)
                 /\ mode' = "idle" /\ UNCHANGED <<G, den0, H>> /\ Advance
 
-TRenameNode == /\ HasRec /\ Rec.ev = "rename_node" /\ mode = "idle"
+TRenameNode == /\ Strict /\ HasRec /\ Rec.ev = "rename_node" /\ mode = "idle"
                /\ RenameNodeAct(Rec.a, Rec.b)
                /\ LoggedOK(G') /\ Den(G') = den0'
                /\ UNCHANGED <<H, mode>> /\ Advance
 
-TRenameEdge == /\ HasRec /\ Rec.ev = "rename_edge" /\ mode = "idle"
+TRenameEdge == /\ Strict /\ HasRec /\ Rec.ev = "rename_edge" /\ mode = "idle"
                /\ RenameEdgeAct(Rec.a, Rec.b)
                /\ LoggedOK(G') /\ Den(G') = den0'
                /\ UNCHANGED <<H, mode>> /\ Advance
 
-TFlip == /\ HasRec /\ Rec.ev = "flip" /\ mode = "idle"
+TFlip == /\ Strict /\ HasRec /\ Rec.ev = "flip" /\ mode = "idle"
          /\ FlipAct
          /\ LoggedOK(G')
          /\ Den(G') = den0'
          /\ UNCHANGED <<H, mode>> /\ Advance
 
-TInsert == /\ HasRec /\ Rec.ev = "insert_chain" /\ mode = "idle"
+TInsert == /\ Strict /\ HasRec /\ Rec.ev = "insert_chain" /\ mode = "idle"
            /\ InsertChainAct(Rec.a, Rec.b, Rec.oids, Rec.coeffs, Rec.qs, Rec.dir)
            /\ LoggedOK(G')
            /\ Den(G') = den0'
            /\ UNCHANGED <<H, mode>> /\ Advance
 
 (* node_depth(nid, direction) and length: distance to the terminal node in that direction = level from the other end *)
-TDepths == /\ HasRec /\ Rec.ev = "depths" /\ mode = "idle"
+TDepths == /\ Strict /\ HasRec /\ Rec.ev = "depths" /\ mode = "idle"
            /\ Rec.length = GraphLength(G)
            /\ \A k \in DOMAIN Rec.depths :
                  LET n == Rec.depths[k][1]
@@ -106,13 +113,13 @@ TAddBegin == /\ HasRec /\ Rec.ev = "add_begin" /\ mode = "idle"
              /\ CanAdd(G, H')
              /\ mode' = "add" /\ UNCHANGED <<G, den0>> /\ Advance
 
-TAddUnion == /\ HasRec /\ Rec.ev = "add_union" /\ mode = "add"
+TAddUnion == /\ Strict /\ HasRec /\ Rec.ev = "add_union" /\ mode = "add"
              /\ AddUnionOrdAct(H, Rec.ordn, Rec.orde)
              /\ LoggedOK(G')
              /\ Den(G') = den0'
              /\ mode' = "addsimplify" /\ UNCHANGED H /\ Advance
 
-TAddEnd == /\ HasRec /\ Rec.ev = "add_end" /\ mode = "addsimplify"
+TAddEnd == /\ Strict /\ HasRec /\ Rec.ev = "add_end" /\ mode = "addsimplify"
            /\ Simplified(G)
            /\ LoggedOK(G)
            /\ JsonIdsUnique(Rec.h_after) /\ GraphOfJson(Rec.h_after) = H     \* the other graph is untouched
@@ -130,7 +137,26 @@ TRaise == /\ HasRec /\ Rec.ev = "raise" /\ mode = "idle"
           /\ LoggedOK(G)
           /\ UNCHANGED <<G, den0, H, mode>> /\ Advance
 
-TStep == TInsert \/ TDepths \/ TInit \/ TMerge \/ TSimplifyBegin \/ TSMerge \/ TSimplifyEnd \/ TRenameNode \/ TRenameEdge \/ TFlip
+(* ---------------------------------------------------------------- pass 2: the clauses of C16 on the logged graphs *)
+PropOK(expectedDen) == /\ JsonIdsUnique(Rec.g) /\ JsonListsOK(Rec.g) /\ ConsistentG(Logged) /\ Rec.cons
+                       /\ Den(Logged) = expectedDen
+NoGrowth(before) == NumEdges(Logged) <= NumEdges(before) /\ NumNodes(Logged) <= NumNodes(before)
+RSame == /\ ~Strict /\ HasRec /\ Rec.ev \in {"merge", "rename_node", "rename_edge"} /\ mode = "idle"
+         /\ PropOK(den0) /\ G' = Logged /\ UNCHANGED <<den0, H, mode>> /\ Advance
+RSimplifyEnd == /\ ~Strict /\ HasRec /\ Rec.ev = "simplify_end" /\ mode = "simplify"
+                /\ PropOK(den0) /\ NoGrowth(G)
+                /\ G' = Logged /\ mode' = "idle" /\ UNCHANGED <<den0, H>> /\ Advance
+RFlip == /\ ~Strict /\ HasRec /\ Rec.ev = "flip" /\ mode = "idle"
+         /\ PropOK(PolyReverse(den0)) /\ G' = Logged /\ den0' = PolyReverse(den0) /\ UNCHANGED <<H, mode>> /\ Advance
+RInsert == /\ ~Strict /\ HasRec /\ Rec.ev = "insert_chain" /\ mode = "idle"          \* private helper: no contract in C16
+           /\ JsonIdsUnique(Rec.g) /\ G' = Logged /\ den0' = Den(Logged) /\ UNCHANGED <<H, mode>> /\ Advance
+RAddEnd == /\ ~Strict /\ HasRec /\ Rec.ev = "add_end" /\ mode = "add"
+           /\ PropOK(PolyAdd(den0, Den(H)))
+           /\ JsonIdsUnique(Rec.h_after) /\ GraphOfJson(Rec.h_after) = H /\ Rec.h_cons      \* the other graph is untouched
+           /\ G' = Logged /\ den0' = PolyAdd(den0, Den(H)) /\ mode' = "idle" /\ H' = NoGraph /\ Advance
+RStep == RSame \/ RSimplifyEnd \/ RFlip \/ RInsert \/ RAddEnd
+
+TStep == RStep \/ TInsert \/ TDepths \/ TInit \/ TMerge \/ TSimplifyBegin \/ TSMerge \/ TSimplifyEnd \/ TRenameNode \/ TRenameEdge \/ TFlip
          \/ TAddBegin \/ TAddUnion \/ TAddEnd \/ TRaise
 
 TNextTrace == /\ tid <= Len(Tr) /\ l > Len(Tr[tid]) /\ mode = "idle"
@@ -139,27 +165,35 @@ TNextTrace == /\ tid <= Len(Tr) /\ l > Len(Tr[tid]) /\ mode = "idle"
 
 Diagnose ==
     IF "g" \in DOMAIN Rec /\ ~JsonIdsUnique(Rec.g) THEN "duplicate ids in logged graph"
+    ELSE IF ~Strict /\ "g" \in DOMAIN Rec /\ Rec.ev \in {"merge", "rename_node", "rename_edge", "simplify_end", "flip", "add_end"} THEN
+        (LET want == IF Rec.ev = "flip" THEN PolyReverse(den0) ELSE IF Rec.ev = "add_end" THEN PolyAdd(den0, Den(H)) ELSE den0
+         IN IF ~(JsonListsOK(Rec.g) /\ ConsistentG(Logged)) THEN "graph fails the consistency check after " \o Rec.ev
+            ELSE IF ~Rec.cons THEN "is_consistent() false on a consistent graph after " \o Rec.ev
+            ELSE IF Den(Logged) # want THEN "denoted operator after " \o Rec.ev \o " differs from its contract (unchanged / sum / reversed)"
+            ELSE IF Rec.ev = "add_end" THEN "add modified the other graph"
+            ELSE IF Rec.ev = "simplify_end" THEN "simplification increased the number of nodes or edges"
+            ELSE "operation not allowed here")
     ELSE IF Rec.ev \in {"merge", "smerge"} THEN
-        (IF ~(Rec.e1 \in EdgeIds(G) /\ Rec.e2 \in EdgeIds(G)) THEN "merge of unknown edges"
-         ELSE IF Rec.ev = "smerge" /\ ~Mergeable(G, Rec.e1, Rec.e2, Rec.dir) THEN "simplify merged a pair that is not mergeable (different operators / charges / shared node)"
-         ELSE IF Rec.ev = "merge" /\ ~CanMerge(G, Rec.e1, Rec.e2, Rec.dir) THEN "merge_edges accepted a pair violating its guards"
-         ELSE IF Logged # MergeEdges(G, Rec.e1, Rec.e2, Rec.dir) THEN "post-state differs from MergeEdges"
+        (IF ~(Rec.e1 \in EdgeIds(G) /\ Rec.e2 \in EdgeIds(G)) THEN "spec: merge of unknown edges"
+         ELSE IF Rec.ev = "smerge" /\ ~Mergeable(G, Rec.e1, Rec.e2, Rec.dir) THEN "spec: simplify merged a pair that is not mergeable (different operators / charges / shared node)"
+         ELSE IF Rec.ev = "merge" /\ ~CanMerge(G, Rec.e1, Rec.e2, Rec.dir) THEN "spec: merge_edges accepted a pair violating its guards"
+         ELSE IF Logged # MergeEdges(G, Rec.e1, Rec.e2, Rec.dir) THEN "spec: post-state differs from MergeEdges"
          ELSE IF Den(Logged) # den0 THEN "merge changed the denoted operator"
          ELSE "is_consistent disagrees or size/width grew")
     ELSE IF Rec.ev \in {"simplify_end", "add_end"} THEN
-        (IF ~Simplified(G) THEN "simplify stopped although a mergeable pair is left"
+        (IF ~Simplified(G) THEN "spec: simplify stopped although a mergeable pair is left"
          ELSE IF Rec.ev = "add_end" /\ GraphOfJson(Rec.h_after) # H THEN "add modified the other graph"
-         ELSE "final graph differs from model or is_consistent disagrees")
+         ELSE "spec: final graph differs from model or is_consistent disagrees")
     ELSE IF Rec.ev = "add_union" THEN
-        (IF ~(IsEnumOf(Rec.ordn, SharedNodes(G, H)) /\ IsEnumOf(Rec.orde, SharedEdges(G, H))) THEN "add did not rename exactly the shared ids"
-         ELSE IF Logged # AddUnionOrd(G, H, Rec.ordn, Rec.orde) THEN "union step of add differs from AddUnion"
+        (IF ~(IsEnumOf(Rec.ordn, SharedNodes(G, H)) /\ IsEnumOf(Rec.orde, SharedEdges(G, H))) THEN "spec: add did not rename exactly the shared ids"
+         ELSE IF Logged # AddUnionOrd(G, H, Rec.ordn, Rec.orde) THEN "spec: union step of add differs from AddUnion"
          ELSE IF Den(Logged) # PolyAdd(den0, Den(H)) THEN "add does not denote the sum"
          ELSE "is_consistent disagrees")
-    ELSE IF Rec.ev = "flip" THEN (IF Logged # FlipGraph(G) THEN "flip post-state differs" ELSE "flip does not reverse the words")
-    ELSE IF Rec.ev \in {"rename_node", "rename_edge"} THEN "rename post-state differs or guard violated"
+    ELSE IF Rec.ev = "flip" THEN (IF Logged # FlipGraph(G) THEN "spec: flip post-state differs" ELSE "flip does not reverse the words")
+    ELSE IF Rec.ev \in {"rename_node", "rename_edge"} THEN "spec: rename post-state differs or guard violated"
     ELSE IF Rec.ev = "raise" THEN "exception although the guard of the call holds"
-    ELSE IF Rec.ev = "insert_chain" THEN "_insert_opchain: post-state or denoted operator differs"
-    ELSE IF Rec.ev = "depths" THEN "node_depth / length differ from the levels of the graph"
+    ELSE IF Rec.ev = "insert_chain" THEN "spec: _insert_opchain: post-state or denoted operator differs"
+    ELSE IF Rec.ev = "depths" THEN "spec: node_depth / length differ from the levels of the graph"
     ELSE IF Rec.ev = "init" THEN "initial graph inconsistent"
     ELSE "unexpected event"
 
